@@ -345,19 +345,6 @@ Variable V : Type.
 Variable veqb : V -> V -> bool.
 Hypothesis veqb_eq : forall a b, veqb a b = true -> a = b.
 
-Lemma idx_from_spec (n : name) (v : V) : forall l k i, idx_from veqb n v l k = Some i ->
-  k <= i /\ nth_error l (i - k) = Some (n, v).
-Proof.
-  induction l as [|[n' v'] r IH]; intros k i H; cbn [idx_from] in H; [discriminate|].
-  destruct (neqb n' n && veqb v' v) eqn:E.
-  - injection H as <-. apply andb_prop in E. destruct E as [E1 E2]. apply neqb_true in E1. apply veqb_eq in E2.
-    subst. rewrite Nat.sub_diag. split; auto.
-  - destruct (IH _ _ H) as [A B]. split; [lia|]. replace (i - k) with (S (i - S k)) by lia. exact B.
-Qed.
-
-Lemma idx_of_spec (n : name) (v : V) l i : idx_of veqb n v l = Some i -> nth_error l i = Some (n, v).
-Proof. unfold idx_of. intro H. apply idx_from_spec in H. destruct H as [_ H]. rewrite Nat.sub_0_r in H. exact H. Qed.
-
 Lemma none_between_spec (n : name) : forall (l : list (name * V)) k i pos, none_between n l k i pos = true ->
   forall j x, nth_error l j = Some (n, x) -> i < k + j -> k + j < pos -> False.
 Proof.
@@ -369,36 +356,58 @@ Proof.
   - apply (IH _ _ _ H2 j x Hn); lia.
 Qed.
 
-Lemma mono_spec : forall (l : list (nat * name * nat)) a r n i b i' c, mono l = true ->
-  l = a ++ (r, n, i) :: b ++ (r, n, i') :: c -> i <= i'.
+Lemma at_idx_spec (l : list (name * V)) i n v : at_idx veqb l i n v = true -> nth_error l i = Some (n, v).
 Proof.
-  intros l a. revert l. induction a as [|[[r0 n0] i0] a IH]; intros l r n i b i' c M E; subst l.
-  - cbn [app mono] in M. apply andb_prop in M. destruct M as [M _]. rewrite forallb_forall in M.
-    specialize (M (r, n, i')). cbn beta iota in M.
-    assert (Hin : In (r, n, i') (b ++ (r, n, i') :: c)) by (apply in_or_app; right; left; auto).
-    specialize (M Hin). rewrite Nat.eqb_refl in M. assert (E : neqb n n = true) by (apply neqb_true; auto).
-    rewrite E in M. cbn in M. apply Nat.leb_le in M. exact M.
-  - cbn [app mono] in M. apply andb_prop in M. destruct M as [_ M]. eapply IH; eauto.
+  unfold at_idx. destruct (nth_error l i) as [[n' v']|]; [|discriminate]. intro H.
+  apply andb_prop in H. destruct H as [H1 H2]. apply neqb_true in H1. apply veqb_eq in H2. subst. reflexivity.
+Qed.
+
+Lemma check_ann_in (installs : list (name * V)) : forall (log : list (rd V)) ann, check_ann veqb installs log ann = true ->
+  forall y, In y log -> exists i, at_idx veqb installs i (rd_name y) (rd_val y) = true /\
+                                  none_between (rd_name y) installs 0 i (rd_pos y) = true.
+Proof.
+  induction log as [|x lr IH]; intros ann H y Hy; [destruct Hy|].
+  destruct ann as [|i ar]; [discriminate|]. cbn [check_ann] in H.
+  apply andb_prop in H. destruct H as [H C]. apply andb_prop in H. destruct H as [H _].
+  apply andb_prop in H. destruct H as [A N]. destruct Hy as [<-|Hy]; eauto.
+Qed.
+
+Lemma later_ok_spec (installs : list (name * V)) r n i : forall (l2 : list (rd V)) y2 l3 a,
+  later_ok r n i (l2 ++ y2 :: l3) a = true -> check_ann veqb installs (l2 ++ y2 :: l3) a = true ->
+  rd_reader y2 = r -> rd_name y2 = n ->
+  exists i2, at_idx veqb installs i2 (rd_name y2) (rd_val y2) = true /\ i <= i2.
+Proof.
+  induction l2 as [|x l2 IH]; intros y2 l3 a L C R N; (destruct a as [|j ar]; [discriminate|]);
+    cbn [app later_ok check_ann] in L, C; apply andb_prop in L; destruct L as [L1 L2];
+    apply andb_prop in C; destruct C as [C C2]; apply andb_prop in C; destruct C as [C _];
+    apply andb_prop in C; destruct C as [A _].
+  - exists j. split; auto. rewrite R, N, Nat.eqb_refl in L1.
+    assert (E : neqb n n = true) by (apply neqb_true; auto). rewrite E in L1. cbn in L1. apply Nat.leb_le. exact L1.
+  - eapply IH; eauto.
+Qed.
+
+Lemma check_ann_mono (installs : list (name * V)) : forall (l1 : list (rd V)) ann y1 l2 y2 l3,
+  check_ann veqb installs (l1 ++ y1 :: l2 ++ y2 :: l3) ann = true ->
+  rd_reader y1 = rd_reader y2 -> rd_name y1 = rd_name y2 ->
+  exists i1 i2, nth_error installs i1 = Some (rd_name y1, rd_val y1) /\
+                nth_error installs i2 = Some (rd_name y2, rd_val y2) /\ i1 <= i2.
+Proof.
+  induction l1 as [|x l1 IH]; intros ann y1 l2 y2 l3 H Rd Nm;
+    (destruct ann as [|i1 ar]; [discriminate|]); cbn [app check_ann] in H;
+    apply andb_prop in H; destruct H as [H C]; apply andb_prop in H; destruct H as [H L];
+    apply andb_prop in H; destruct H as [A _].
+  - destruct (@later_ok_spec installs (rd_reader y1) (rd_name y1) i1 l2 y2 l3 ar L C (eq_sym Rd) (eq_sym Nm)) as (i2 & A2 & Le).
+    exists i1, i2. split; [apply at_idx_spec; auto|]. split; [apply at_idx_spec; auto|auto].
+  - exact (IH ar y1 l2 y2 l3 C Rd Nm).
 Qed.
 
 Theorem monitor_sound (installs : list (name * V)) (log : list (rd V)) :
   reads_ok veqb installs log = true -> reads_spec installs log.
 Proof.
-  unfold reads_ok. intro H. apply andb_prop in H. destruct H as [R M]. rewrite forallb_forall in R. split.
-  - intros y Hy. specialize (R y Hy). unfold read_ok in R.
-    destruct (idx_of veqb (rd_name y) (rd_val y) installs) as [i|] eqn:Ei; [|discriminate].
-    exists i. split; [apply idx_of_spec; auto|]. intros j x A B Hn.
-    apply (@none_between_spec (rd_name y) installs 0 i (rd_pos y) R j x Hn); lia.
-  - intros l1 y1 l2 y2 l3 E Rd Nm.
-    assert (H1 : In y1 log) by (rewrite E; apply in_or_app; right; left; auto).
-    assert (H2 : In y2 log) by (rewrite E; apply in_or_app; right; right; apply in_or_app; right; left; auto).
-    pose proof (R y1 H1) as R1. pose proof (R y2 H2) as R2. unfold read_ok in R1, R2.
-    destruct (idx_of veqb (rd_name y1) (rd_val y1) installs) as [i1|] eqn:E1; [|discriminate].
-    destruct (idx_of veqb (rd_name y2) (rd_val y2) installs) as [i2|] eqn:E2; [|discriminate].
-    exists i1, i2. split; [apply idx_of_spec; auto|]. split; [apply idx_of_spec; auto|].
-    unfold annotate in M. rewrite E in M. rewrite !map_app in M. cbn [map] in M. rewrite !map_app in M. cbn [map] in M.
-    rewrite E1, E2 in M. rewrite <- Rd, <- Nm in M.
-    eapply mono_spec; [exact M|reflexivity].
+  unfold reads_ok. generalize (assign veqb installs log). intros ann H. split.
+  - intros y Hy. destruct (@check_ann_in installs log ann H y Hy) as (i & A & N). exists i. split; [apply at_idx_spec; auto|].
+    intros j x P Q Hn. apply (@none_between_spec (rd_name y) installs 0 i (rd_pos y) N j x Hn); lia.
+  - intros l1 y1 l2 y2 l3 E Rd Nm. subst log. eapply check_ann_mono; eauto.
 Qed.
 
 End Monitor.
